@@ -316,6 +316,7 @@ EXTRA_TEXT = {
  'C11': ' In the reconfiguration histories the real systems are USED in place between reconfigurations (add_diagonal + solve with and without overwrite_ab; solve_pspline), as the methods use them.',
  'C13': ' Histories on one long-lived fitter in which the SAME caller objects (data buffer overwritten in place, weights array, keyword dictionaries) are handed to several calls, every ordered pair of same-module methods that take weights included. method_kwargs dictionaries are also given keys that shadow the optimizer\'s own arguments or that it treats specially (weights, alpha, tol, lam, max_iter, x_data), with the explicit argument omitted.',
  'C14': ' 2-D: `erode2d_rect_min` / `dilate2d_rect_max`, `tophat2d_le`, `tophat2d_idem`, `tophat2d_shift`, `mor2d_le`, `mor2d_shift`, `imor2d_le` and the shape lemmas are proved for every rectangular matrix and every pair of half windows; the 2-D correspondence covers unequal windows, windows longer than an axis and thin shapes. Rubberband: theorems `lowerHull_cert_sound` (the interpolant through a certified mask is <= the data, touches it at the vertices, is convex), `lowerHull_greatest` / `lowerHull_unique` (it is THE greatest convex minorant, whatever collinear points the mask keeps), `lowerHull_shift`, `rubberband_segments_interp`; the real baseline is compared with the model\'s exact np.interp through the returned mask (bit-exact at the vertices, a derived ulp bound elsewhere), per segment, with weights, and on shifted data.',
+ 'C16': ' Route A table obligation `wrappers_match` over Gen/Wrappers (regenerated on every run): every public 1-D method has a module-level function that takes x_data and otherwise the same parameters, defaults and order (interp_pts being the documented exception to the order) — the premise of `classWrapper_forwards`. Histories of calls on one long-lived Baseline against the module-level function with x_data.',
  'C17': ' Histories of optimizer calls on one long-lived fitter (the wrapped method, the side and other options changing one at a time) against a fresh fitter. collab_pls: planner model of every call it makes (first pass, final fits, overridden keys per method family, averaging order, error order) with theorems `collab_kwargs`, `collab_calls_average_dataset`, `collab_calls_average_weights`, `collab_final_fit_kwargs`, `collab_errors`, `collab_reported_weights_are_used`, `collab_single_dataset`; the Lean plan is executed with the real wrapped method and the calls the real collab_pls makes are recorded and compared with the plan (count, data, keyword names in order, values bit-exact).',
  'C18': ' 2-D theorems: `pad2d_shape`, `pad2d_interior`, `pad2d_rows_are_1d` / `pad2d_cols_are_1d` / `pad2d_all_rows_are_1d` (the 2-D result is the 1-D model applied along each axis, in either order: `extrap2d_corner_orders_agree`), `extrap2d_planar_exact` and `extrap2d_planar_clamped` (every entry, corners included, for every window combination), `extrap2d_window_one(_sides)`, and the argument resolution of pad_edges2d (`pad2d_args_*`); correspondence over every argument form (scalar / pair / four values, nested windows, malformed), single-row and single-column data, and against compositions of the real 1-D pad_edges.',
  'C19': ' Theorems `strategies_equal_first`, `strategies_equal`, `strategies_equal_loop`, `strategies_equal_loess` (the two memory strategies end in the same state for every interpretation of the scalar operations and every solver, for every max_iter), `baseline_written_iff`, `kernel_den_pos`, `poly_reproduction` (under the numeric-layer hypothesis that the local solver satisfies its normal equations); the real kernels\' Python source is compared with the model bit-exactly on the kernel vectors and in exact rationals on two passes; histories of loess calls on ONE re-used fitter (delta, total_points, poly_order, budget and strategy changing from call to call) against a fresh fitter.',
